@@ -28,6 +28,7 @@ type c09Mon struct {
 	credited  []*big.Int // per tracked denom
 	withdrawn []*big.Int
 	nextL2    uint64
+	execs     []string
 }
 
 func (m *c09Mon) viol(i int, sig, what string) {
@@ -44,6 +45,7 @@ func c09Check(rep *Report, c *L2Case, initObs Ov) {
 	}
 	m.nextL2 = m.init.N2
 	prev := m.init
+	m.execs = append([]string{}, c.Params.Execs...)
 	for i, o := range c.Ops {
 		cur := l2ViewOf(tr, c.Obs[i])
 		evs := parseL2EvList(c.Results[i].Events)
@@ -110,6 +112,12 @@ func c09Check(rep *Report, c *L2Case, initObs Ov) {
 			if prev.Pair[di] != nil && (cur.Pair[di] == nil || *cur.Pair[di] != *prev.Pair[di]) {
 				m.viol(i, "C09:pair-overwritten", fmt.Sprintf("base denom of %s changed from %s", d, *prev.Pair[di]))
 			}
+			// ... and the first processed deposit of a denom does write it
+			for _, ev := range devs {
+				if ev.Denom == d && cur.Pair[di] == nil {
+					m.viol(i, "C09:pair-not-recorded", fmt.Sprintf("a deposit of %s was processed but the denom has no base denom afterwards", d))
+				}
+			}
 			if prev.Pair[di] == nil && cur.Pair[di] != nil {
 				ok := false
 				for _, ev := range devs {
@@ -123,6 +131,9 @@ func c09Check(rep *Report, c *L2Case, initObs Ov) {
 			}
 		}
 
+		if o.Kind == "fdep" && !cur.OK && o.Seq == prev.N1 && m.wellFormedDeposit(o) {
+			m.viol(i, "C09:deposit-blocked", "a well-formed deposit at the expected sequence from a current executor was rejected: "+c.Results[i].Err)
+		}
 		switch o.Kind {
 		case "withdraw":
 			m.checkWithdraw(i, o, prev, cur, wevs, devs)
@@ -133,8 +144,30 @@ func c09Check(rep *Report, c *L2Case, initObs Ov) {
 				m.viol(i, "C09:stray-event", "bridge event emitted by a message that is neither a deposit nor a withdrawal")
 			}
 		}
+		if o.Kind == "params" && cur.OK {
+			m.execs = append([]string{}, o.Params.Execs...)
+		}
 		prev = cur
 	}
+}
+
+// a deposit the handler must process: valid fields, sender a current executor
+func (m *c09Mon) wellFormedDeposit(o L2Op) bool {
+	e := m.c.Env
+	if o.From == "" || o.Height == 0 || o.Seq == 0 || sdk.ValidateDenom(o.Denom) != nil || sdk.ValidateDenom(o.Base) != nil || o.Amt.Sign() < 0 {
+		return false
+	}
+	sb, err := e.AK.AddressCodec().StringToBytes(o.Sender)
+	if err != nil {
+		return false
+	}
+	for _, x := range m.execs { // the executor list in force, tracked from the accepted UpdateParams messages
+		xb, err := e.AK.AddressCodec().StringToBytes(x)
+		if err == nil && string(xb) == string(sb) {
+			return true
+		}
+	}
+	return false
 }
 
 func (m *c09Mon) checkWithdraw(i int, o L2Op, prev, cur L2View, wevs, devs []L2Ev) {
